@@ -15,6 +15,7 @@ Two independent judgements:
       map from the *inputs* and the observed success of Set, and judges every reply and signal of the
       implementation alone.
 """
+import os
 import struct
 
 STREAMS = ['decl-matrix', 'collision-inheritance', 'random-histories']
@@ -1014,6 +1015,8 @@ def gen_ops(rng, classes, nobj, nops, wrong=0.2):
         if r < 0.3:
             if rng.random() < 0.1:
                 v = from_py(rng.choice(JUNK_LOCAL))
+                if v[0] == 'D' and q[1] in 'og':
+                    v = ['N']             # str(float) is not modelled
             else:
                 v = good_value(rng, q[1])
             ops.append(['assign', o, a, v])
@@ -1129,7 +1132,12 @@ def run_batch(ctx, stream, cases, seen_keys):
         lines, _ = enc_case(c)
         spans.append((len(all_lines), len(lines)))
         all_lines.extend(lines)
-    out = ctx.model(all_lines)
+    # self-test knob: C17_MODEL_CFG=original compares the PRE-repair model (Cfg.original, the one the witness
+    # theorems are about) with the tree under test
+    cfg = os.environ.get('C17_MODEL_CFG', 'repaired')
+    out = ctx.model(['cfg ' + cfg] + all_lines)
+    if out is not None:
+        out = out[1:]
     for c, (a, n) in zip(cases, spans):
         ml = out[a:a + n] if out is not None else None
         res = run_case(c, None)
